@@ -42,6 +42,9 @@ def movable_variants():
     for i, (cx, cy, a) in enumerate([(F(3, 2), F(3, 2), F(1)), (F(1), F(1), F(9, 4)), (F(1, 4), F(11, 4), F(1)),
                                      (F(3), F(3, 2), F(1)), (F(2), F(1), F(2))]):
         v.append((f'sq{i}', dict(kind='soft', centre=(cx, cy), area=a, rects=[])))
+    # the same squares for modules whose area is split over two regions (the square has the TOTAL area)
+    v.append(('sqR0', dict(kind='soft', centre=(F(3, 2), F(3, 2)), area=F(1), rects=[], regions=True)))
+    v.append(('sqR1', dict(kind='soft', centre=(F(1), F(1)), area=F(9, 4), rects=[], regions=True)))
     singles = dict(A=(0, 0, 4, 2), B=(2, 2, 6, 6), C=(1, 1, 3, 3), D=(4, 0, 8, 2), E=(0, 4, 2, 7), Fw=(0, 0, 6, 6),
                    G=(3, 1, 5, 5))
     for k, r in singles.items():
@@ -160,6 +163,8 @@ def build(case):
             if a == 'unit':
                 a = 1 / (u * u)
             mods[mname] = {'area': num(a * u * u), 'center': [num(cx * u), num(cy * u)]}
+            if spec.get('regions'):
+                mods[mname]['area'] = {'_': num(a * u * u / 4), 'dsp': num(a * u * u * 3 / 4)}
             model[mname] = dict(kind='soft', rects=None, square=(float(cx * u), float(cy * u), float(a * u * u)))
         else:
             exr = [ex_half(r) for r in spec['rects']]
